@@ -14,6 +14,7 @@ import (
 	"time"
 
 	"go.sia.tech/core/consensus"
+	"go.sia.tech/core/gateway"
 	"go.sia.tech/core/types"
 	"verif/internal/chaingen"
 	"verif/internal/harness"
@@ -1512,6 +1513,29 @@ func (v *valmon) evaluate(cs consensus.State, orig types.Block, mt mut, h uint64
 func (v *valmon) validateAll(cs consensus.State, blk *types.Block, mt mut) (out valOutcome) {
 	c := v.c
 	supp := c.SupplementFor(*blk)
+	// relay level: a v2 block travels as an outline, which the receiver decodes and completes before validating
+	if blk.V2 != nil && len(blk.MinerPayouts) == 1 {
+		// the sender's side (outlining and encoding a block it would not have accepted) is not judged
+		var buf bytes.Buffer
+		sent := safely(func() {
+			e := types.NewEncoder(&buf)
+			o := gateway.OutlineBlock(*blk, nil, nil)
+			gateway.VerifEncodeOutline(&o, e)
+			e.Flush()
+		})
+		if sent {
+			var got gateway.V2BlockOutline
+			d := types.NewBufDecoder(buf.Bytes())
+			gateway.VerifDecodeOutline(&got, d)
+			if d.Err() == nil {
+				rb, missing := got.Complete(cs, nil, nil)
+				if len(missing) == 0 {
+					consensus.ValidateOrphan(cs, rb)
+				}
+				v.b.Count("variant_blocks_relayed_as_outline_and_completed", 1)
+			}
+		}
+	}
 	// transaction level
 	func() {
 		ms := consensus.NewMidState(cs)
